@@ -520,6 +520,310 @@ theorem rep_self (lv : Option Bytes) (before : List Bytes) (cur disp attrs out :
       push, Visitor.hasSel, Visitor.selector, repOut, selOn] <;>
     split <;> simp [push]
 
+/-! ### names of the states -/
+
+theorem stNames_stG {P : List Bytes} (lv : Option Bytes) (before : List Bytes) (cur : Bytes) (after : List Bytes)
+    (hc : cur ∈ P) (hl : ∀ n, lv = some n → n ∈ P) : StNames P (stG k sel content lv before cur after) :=
+  ⟨fun n h => by simp [stG] at h; exact h ▸ hc, fun n h => hl n (by simpa [stG] using h),
+   fun l h => by simp [stG] at h⟩
+
+theorem stNames_stR {P : List Bytes} (before : List Bytes) (cur a : Bytes) (after : List Bytes)
+    (hc : cur ∈ P) (ha : a ∈ P) : StNames P (stR k sel content before cur a after) :=
+  ⟨fun n h => by simp [stR] at h; exact h ▸ ha, fun n h => by simp [stR] at h; exact h ▸ hc,
+   fun l h => by simp [stR] at h⟩
+
+theorem stNames_stT {P : List Bytes} (before : List Bytes) (cur : Bytes) (hc : cur ∈ P) :
+    StNames P (stT k sel content before cur) :=
+  ⟨fun n h => by simp [stT] at h, fun n h => by simp [stT] at h; exact h ▸ hc, fun l h => by simp [stT] at h⟩
+
+theorem stNames_stB {P : List Bytes} (b : Bool) (before : List Bytes) (cur buffer : Bytes) (hc : cur ∈ P) :
+    StNames P (stB k sel content b before cur buffer) :=
+  ⟨fun n h => by simp [stB] at h, fun n h => by simp [stB] at h; exact h ▸ hc,
+   fun l h => by simp [stB] at h; rw [h]; exact hc⟩
+
+theorem push_stB (b : Bool) (before : List Bytes) (cur buffer out d : Bytes) :
+    push (stB k sel content b before cur buffer) out d = (stB k sel content b before cur (buffer ++ d), out) := by
+  simp [push, stB]
+
+theorem push_stT (before : List Bytes) (cur out d : Bytes) :
+    push (stT k sel content before cur) out d = (stT k sel content before cur, out ++ d) := by
+  simp [push, stT]
+
+theorem push_stG (lv : Option Bytes) (before : List Bytes) (cur : Bytes) (after : List Bytes) (out d : Bytes) :
+    push (stG k sel content lv before cur after) out d = (stG k sel content lv before cur after, out ++ d) := by
+  simp [push, stG]
+
+theorem push_stR (before : List Bytes) (cur a : Bytes) (after : List Bytes) (out d : Bytes) :
+    push (stR k sel content before cur a after) out d = (stR k sel content before cur a after, out ++ d) := by
+  simp [push, stR]
+
+/-! ### `append_child` / `prepend_child` on the tokens of an element -/
+
+/-- a token list that leaves the nesting level of `append_child` unchanged and never closes it -/
+def Bal (toks : List Tok) : Prop :=
+  ∀ (child : Bytes) (more : List Tok) (rest : Bytes) (l : Int) (out : Bytes), 1 ≤ l →
+    appendChildGo child (toks ++ more) rest l out = appendChildGo child more rest l (out ++ rawsOf toks)
+
+theorem bal_nil : Bal [] := by
+  intro child more rest l out _; simp [rawsOf]
+
+theorem bal_append {a b : List Tok} (ha : Bal a) (hb : Bal b) : Bal (a ++ b) := by
+  intro child more rest l out hl
+  rw [List.append_assoc, ha child _ rest l out hl, hb child more rest l _ hl, rawsOf_append, List.append_assoc]
+
+/-- a token that is neither a start nor an end tag -/
+theorem bal_single {t : Tok} (h1 : t.kind ≠ .startTag) (h2 : t.kind ≠ .endTag) : Bal [t] := by
+  intro child more rest l out _
+  simp only [List.cons_append, List.nil_append]
+  rw [appendChildGo]
+  simp [h1, h2, rawsOf]
+
+theorem bal_void {t : Tok} (h1 : t.kind = .startTag) (hv : isVoid t.name = true) : Bal [t] := by
+  intro child more rest l out _
+  simp only [List.cons_append, List.nil_append]
+  rw [appendChildGo]
+  simp [h1, hv, rawsOf]
+
+theorem bal_textToks (bs : Bytes) : Bal (textToks bs) := by
+  unfold textToks
+  split
+  · exact bal_nil
+  · exact bal_single (by simp) (by simp)
+
+/-- `<name …>` balanced content `</name>` is balanced -/
+theorem bal_element {name disp attrs : Bytes} {inner : List Tok} (hv : isVoid name = false) (hi : Bal inner) :
+    Bal (startTok name disp attrs :: (inner ++ [endTok name disp])) := by
+  intro child more rest l out hl
+  simp only [List.cons_append, List.append_assoc, List.nil_append]
+  rw [appendChildGo]
+  simp only [startTok, hv, Bool.false_eq_true, if_false, if_true, reduceCtorEq]
+  rw [hi child _ rest (l + 1) _ (by omega)]
+  simp only [List.cons_append, List.nil_append]
+  rw [appendChildGo]
+  have : l + 1 - 1 ≠ 0 := by omega
+  simp only [endTok, reduceCtorEq, if_false, if_true, this]
+  simp [rawsOf, startTok, endTok]
+
+theorem appendChild_elem {data name disp attrs child : Bytes} {inner : List Tok}
+    (hv : isVoid name = false) (hb : Bal inner)
+    (htk : tk data = (startTok name disp attrs :: (inner ++ [endTok name disp]), [])) :
+    appendChild tk data child =
+      (startTok name disp attrs).raw ++ rawsOf inner ++ child ++ (endTok name disp).raw := by
+  unfold appendChild
+  rw [htk]
+  simp only
+  rw [appendChildGo]
+  simp only [startTok, hv, Bool.false_eq_true, if_false, if_true, reduceCtorEq]
+  rw [hb child _ [] (0 + 1) _ (by omega)]
+  rw [appendChildGo]
+  simp [endTok, rawsOf]
+
+theorem prependChild_elem {data name disp attrs child : Bytes} {inner : List Tok}
+    (htk : tk data = (startTok name disp attrs :: (inner ++ [endTok name disp]), [])) :
+    prependChild tk data child =
+      (startTok name disp attrs).raw ++ child ++ rawsOf inner ++ (endTok name disp).raw := by
+  unfold prependChild
+  rw [htk]
+  simp only
+  rw [prependChildGo]
+  simp [startTok, rawsOf_append, rawsOf, endTok]
+
+/-! ### the target element (append / prepend) -/
+
+def opOf : VKind → EditOp
+  | .append => .append
+  | .prepend => .prepend
+  | .replace => .replace
+
+/-- the selector as the reference edit sees it (`Some("")` = no selector) -/
+def selN (sel : Option Bytes) : Option Bytes :=
+  match sel with
+  | some s => if s.isEmpty then none else some s
+  | none => none
+
+theorem selN_of_off {sel : Option Bytes} (h : selOn sel = false) : selN sel = none := by
+  rcases sel with _ | (_ | ⟨b, r⟩) <;> simp [selOn] at h <;> rfl
+
+theorem selN_of_on {sel : Option Bytes} (h : selOn sel = true) : selN sel = some (sel.getD []) := by
+  rcases sel with _ | (_ | ⟨b, r⟩) <;> simp [selOn] at h <;> rfl
+
+variable (vt : Bytes → List Tok)
+
+theorem tokensOf_el_inner (nm d at_ : Bytes) (knd : ElKind) (cs : List Node) (h : knd = .normal ∨ knd = .raw) :
+    tokensOf vt (.el nm d at_ knd cs) = startTok nm d at_ :: (innerToks vt knd cs ++ [endTok nm d]) := by
+  rcases h with h | h <;> subst h <;> simp [tokensOf, innerToks]
+
+theorem serialize_el_inner (nm d at_ : Bytes) (knd : ElKind) (cs : List Node) (h : knd = .normal ∨ knd = .raw) :
+    serialize (.el nm d at_ knd cs) = (startTok nm d at_).raw ++ serializeList cs ++ (endTok nm d).raw := by
+  rcases h with h | h <;> subst h <;> simp [serialize, startTok, endTok]
+
+theorem rawsOf_innerToks (hv : VtLossless vt) (knd : ElKind) (cs : List Node) :
+    rawsOf (innerToks vt knd cs) = serializeList cs := by
+  cases knd <;> simp [innerToks, rawsOf_textToks, rawsOf_tokensOfList vt hv]
+
+/-- the decision the reference edit uses: the selector oracle applied to the serialised target -/
+def decOf (ev : Bytes → Bytes → Bool) : Node → Bytes → Bool := fun n s => ev (serialize n) s
+
+/-- what the theorems ask of an append / prepend target -/
+structure TargetAP (P : List Bytes) (cur d at_ : Bytes) (knd : ElKind) (cs : List Node) : Prop where
+  kind : knd = .normal ∨ knd = .raw
+  nvoid : isVoid cur = false
+  inner : ∀ t ∈ innerToks vt knd cs, NeutralTok P t
+  /-- with a selector the buffered element is re-tokenised by `append_child` / `prepend_child` -/
+  tkOK : selOn sel = true →
+    tk (serialize (.el cur d at_ knd cs)) = (tokensOf vt (.el cur d at_ knd cs), [])
+  bal : selOn sel = true → k = .append → Bal (innerToks vt knd cs)
+
+theorem foldl_cons_append_single {α β : Type} (f : β → α → β) (b : β) (x : α) (mid : List α) (y : α) :
+    (x :: (mid ++ [y])).foldl f b = f (mid.foldl f (f b x)) y := by
+  simp [List.foldl_append]
+
+theorem target_AP (hk : k = .append ∨ k = .prepend) (hvt : VtLossless vt) {P : List Bytes}
+    {cur d at_ : Bytes} {knd : ElKind} {cs : List Node} (hcP : cur ∈ P)
+    (h : TargetAP tk k sel vt P cur d at_ knd cs) (lv : Option Bytes) (before : List Bytes) (out : Bytes)
+    (m : List Bytes) :
+    (tokensOf vt (.el cur d at_ knd cs)).foldl (stepTok tk ev) (stG k sel content lv before cur [], out) =
+      (stRet k sel content before cur [],
+        out ++ serialize (applyOpD (decOf ev) (opOf k) (selN sel) (.verb content m) (.el cur d at_ knd cs))) := by
+  have hin := rawsOf_innerToks vt hvt knd cs
+  rw [tokensOf_el_inner vt cur d at_ knd cs h.kind, foldl_cons_append_single]
+  cases hs : selOn sel with
+  | false =>
+    rw [selN_of_off hs]
+    rcases hk with hk | hk <;> subst hk
+    · rw [app_start_nosel tk ev sel content lv before cur d at_ out h.nvoid hs,
+        fold_neutral tk ev _ h.inner _ _ (stNames_stT _ _ _ before cur hcP), push_stT,
+        app_end_nosel tk ev sel content before cur d _ hs]
+      simp only [applyOpD, opOf, Option.map_none, Option.getD_none, if_true]
+      rw [serialize_el_inner cur d at_ knd _ h.kind, serializeList_append, hin]
+      simp [serializeList, serialize]
+    · rw [pre_start_nosel tk ev sel content lv before cur d at_ out h.nvoid hs,
+        fold_neutral tk ev _ h.inner _ _ (stNames_stT _ _ _ before cur hcP), push_stT,
+        pre_end_nosel tk ev sel content before cur d _ hs]
+      simp only [applyOpD, opOf, Option.map_none, Option.getD_none, if_true]
+      rw [serialize_el_inner cur d at_ knd _ h.kind, hin]
+      simp [serializeList, serialize]
+  | true =>
+    rw [selN_of_on hs]
+    have htk := h.tkOK hs
+    rw [tokensOf_el_inner vt cur d at_ knd cs h.kind] at htk
+    have hser := serialize_el_inner cur d at_ knd cs h.kind
+    rcases hk with hk | hk <;> subst hk
+    · rw [app_start_sel tk ev sel content lv before cur d at_ out h.nvoid hs,
+        fold_neutral tk ev _ h.inner _ _ (stNames_stB _ _ _ false before cur _ hcP), push_stB,
+        app_end_sel tk ev sel content before cur d _ _ hs, hin, ← hser]
+      simp only [applyOpD, opOf, Option.map_some, Option.getD_some, decOf]
+      rcases Bool.eq_false_or_eq_true (ev (serialize (.el cur d at_ knd cs)) (sel.getD [])) with hev | hev
+      · simp only [hev, Bool.not_true, Bool.false_eq_true, if_false]
+      · simp only [hev, Bool.not_false, if_true]
+        rw [appendChild_elem tk h.nvoid (h.bal hs rfl) htk, hin,
+          serialize_el_inner cur d at_ knd _ h.kind, serializeList_append]
+        simp [serializeList, serialize]
+    · rw [pre_start_sel tk ev sel content lv before cur d at_ out h.nvoid hs,
+        fold_neutral tk ev _ h.inner _ _ (stNames_stB _ _ _ true before cur _ hcP), push_stB,
+        pre_end_sel tk ev sel content before cur d _ _ hs, hin, ← hser]
+      simp only [applyOpD, opOf, Option.map_some, Option.getD_some, decOf]
+      rcases Bool.eq_false_or_eq_true (ev (serialize (.el cur d at_ knd cs)) (sel.getD [])) with hev | hev
+      · simp only [hev, Bool.not_true, Bool.false_eq_true, if_false]
+      · simp only [hev, Bool.not_false, if_true]
+        rw [prependChild_elem tk htk, hin, serialize_el_inner cur d at_ knd _ h.kind]
+        simp [serializeList, serialize]
+
+/-! ### free (path-name-free) subtrees -/
+
+/-- no tag token of the forest carries a path name -/
+def FreeL (P : List Bytes) (ns : List Node) : Prop := ∀ t ∈ tokensOfList vt ns, NeutralTok P t
+
+theorem FreeL.cons_head {P : List Bytes} {n : Node} {ns : List Node} (h : FreeL vt P (n :: ns)) :
+    ∀ t ∈ tokensOf vt n, NeutralTok P t :=
+  fun t ht => h t (by rw [tokensOfList_cons]; exact List.mem_append_left _ ht)
+
+theorem FreeL.cons_tail {P : List Bytes} {n : Node} {ns : List Node} (h : FreeL vt P (n :: ns)) : FreeL vt P ns :=
+  fun t ht => h t (by rw [tokensOfList_cons]; exact List.mem_append_right _ ht)
+
+theorem name_not_mem_of_free {P : List Bytes} {nm d a : Bytes} {knd : ElKind} {cs : List Node}
+    (h : ∀ t ∈ tokensOf vt (.el nm d a knd cs), NeutralTok P t) : nm ∉ P := by
+  cases knd with
+  | selfClosing => exact h (selfTok nm d a) (by simp [tokensOf]) (by simp [selfTok, isTagKind])
+  | void => exact h (startTok nm d a) (by simp [tokensOf]) (by simp [startTok, isTagKind])
+  | raw => exact h (startTok nm d a) (by simp [tokensOf]) (by simp [startTok, isTagKind])
+  | normal => exact h (startTok nm d a) (by simp [tokensOf]) (by simp [startTok, isTagKind])
+
+/-- with child semantics the reference edit leaves a free forest alone -/
+theorem editListD_free_child (dec : Node → Bytes → Bool) (op : EditOp) (s' : Option Bytes) (ins : Node)
+    {P : List Bytes} {p : Bytes} (hp : p ∈ P) (ps : List Bytes) :
+    ∀ ns : List Node, FreeL vt P ns → editListD dec op s' ins p ps false ns = ns
+  | [], _ => by simp [editListD]
+  | n :: ns, h => by
+    rw [editListD, editListD_free_child dec op s' ins hp ps ns (FreeL.cons_tail vt h)]
+    congr 1
+    cases n with
+    | verb r m => simp [editNodeD]
+    | el nm d a knd cs =>
+      have hnm : nm ∉ P := name_not_mem_of_free vt (FreeL.cons_head vt h)
+      have : (nm == p) = false := by
+        cases hb : (nm == p) with
+        | false => rfl
+        | true => exact absurd ((beq_iff_eq.mp hb) ▸ hp) hnm
+      simp [editNodeD, this]
+
+theorem editListD_append (dec : Node → Bytes → Bool) (op : EditOp) (s' : Option Bytes) (ins : Node)
+    (p : Bytes) (ps : List Bytes) (aw : Bool) (a b : List Node) :
+    editListD dec op s' ins p ps aw (a ++ b) =
+      editListD dec op s' ins p ps aw a ++ editListD dec op s' ins p ps aw b := by
+  induction a with
+  | nil => simp [editListD]
+  | cons n ns ih => simp [editListD, ih]
+
+/-! ### an element of the path and everything below it (append / prepend) -/
+
+/-- domain of an element named `cur` whose remaining path is `after` -/
+def ChildDomAP (P : List Bytes) : List Bytes → Bytes → Bytes → Bytes → ElKind → List Node → Prop
+  | [], cur, d, at_, knd, cs => TargetAP tk k sel vt P cur d at_ knd cs
+  | a :: rest, cur, _, _, knd, cs =>
+    knd = .normal ∧ isVoid cur = false ∧
+    ∃ pre d' at' knd' cs' post, cs = pre ++ Node.el a d' at' knd' cs' :: post ∧
+      FreeL vt P pre ∧ FreeL vt P post ∧ ChildDomAP P rest a d' at' knd' cs'
+
+theorem elem_AP (hk : k = .append ∨ k = .prepend) (hvt : VtLossless vt) {P : List Bytes} (m : List Bytes) :
+    ∀ (after before : List Bytes) (cur d at_ : Bytes) (knd : ElKind) (cs : List Node) (lv : Option Bytes)
+      (out : Bytes), ChildDomAP tk k sel vt P after cur d at_ knd cs → cur ∈ P → (∀ a ∈ after, a ∈ P) →
+      (tokensOf vt (.el cur d at_ knd cs)).foldl (stepTok tk ev) (stG k sel content lv before cur after, out) =
+        (stRet k sel content before cur after,
+          out ++ serialize (editNodeD (decOf ev) (opOf k) (selN sel) (.verb content m) cur after false
+            (.el cur d at_ knd cs)))
+  | [], before, cur, d, at_, knd, cs, lv, out, h, hc, _ => by
+    rw [target_AP tk ev k sel content vt hk hvt hc h lv before out m]
+    simp [editNodeD]
+  | a :: rest, before, cur, d, at_, knd, cs, lv, out, h, hc, ha => by
+    obtain ⟨hknd, hvoid, pre, d', at', knd', cs', post, hcs, hpre, hpost, hch⟩ := h
+    subst hknd
+    subst hcs
+    have haP : a ∈ P := ha a (by simp)
+    rw [tokensOf_el_normal, foldl_cons_append_single, step_start_down tk ev k sel content lv before cur a rest d at_ out hvoid]
+    rw [tokensOfList_append, tokensOfList_cons, List.foldl_append, List.foldl_append]
+    -- the free siblings before the child
+    rw [fold_neutral tk ev _ hpre _ _ (stNames_stG k sel content _ _ _ _ haP
+      (fun n hn => by simp at hn; exact hn ▸ hc))]
+    have hS : stS k sel content (cur :: before) a rest = stG k sel content (some cur) (cur :: before) a rest := rfl
+    rw [hS, push_stG]
+    -- the child
+    rw [elem_AP hk hvt m rest (cur :: before) a d' at' knd' cs' (some cur) _ hch haP
+      (fun x hx => ha x (List.mem_cons_of_mem _ hx))]
+    -- the free siblings after it
+    have hR : stRet k sel content (cur :: before) a rest = stR k sel content before cur a rest := rfl
+    rw [hR, fold_neutral tk ev _ hpost _ _ (stNames_stR k sel content _ _ _ _ hc haP), push_stR,
+      step_end_up tk ev k sel content before cur a rest d]
+    -- the reference edit
+    congr 1
+    have hq : (cur == cur) = true := by simp
+    simp only [editNodeD, hq, if_true]
+    rw [editListD_append, editListD, editListD_free_child vt _ _ _ _ haP rest pre hpre,
+      editListD_free_child vt _ _ _ _ haP rest post hpost]
+    rw [rawsOf_tokensOfList vt hvt pre, rawsOf_tokensOfList vt hvt post]
+    simp only [serialize, serializeList_append, serializeList, startTok, endTok]
+    simp [List.append_assoc]
+
 end
 
 end Rio.Filter
